@@ -426,10 +426,10 @@ func genAdversarialOp(rng *rand.Rand, g *GenesisSpec) Op {
 }
 
 func genC20(rng *rand.Rand, seed uint64, tier string) *Script {
-	switch rng.IntN(7) {
+	switch rng.IntN(8) {
 	case 0:
 		return genBusScript(rng, seed)
-	case 1:
+	case 1, 7:
 		return genFilterScript(rng, seed)
 	case 2:
 		return genWSServerScript(rng, seed)
